@@ -1123,6 +1123,19 @@ def inline_helpers(fn: ast.FunctionDef, helpers: Dict[str, Tuple[ast.FunctionDef
                             # bring guard clauses into if/else form first, so that every return is in tail position
                             body = canon.block(body, None)
                             new = _returns_to(body, make)
+                            if new is None and pre and any(isinstance(p_.value, (ast.Tuple, ast.List, ast.Dict, ast.Constant)) for p_ in pre):
+                                # a return inside a loop over a table that is a literal argument of this call: specialise a
+                                # copy of the helper to the literal (the loop unrolls), then try again
+                                spec = ast.FunctionDef("__spec", ast.arguments([], [], None, [], [], None, []), [copy.deepcopy(p_) for p_ in pre] + [copy.deepcopy(b_) for b_ in body], [], None)
+                                ast.fix_missing_locations(spec)
+                                for _k in range(3):
+                                    spec.body = canon.function_body(spec.body)
+                                    if not (propagate_temporaries(spec, keep=set()) or _loops_to_comprehensions(spec)):
+                                        break
+                                spec.body = canon.function_body(spec.body)
+                                new2 = _returns_to(spec.body, make)
+                                if new2 is not None:
+                                    new, pre = new2, []
                             if new is not None and mode == "assign" and not _terminates([copy.deepcopy(s) for s in hdef.body], canon.noreturn) and not _all_paths_return(hdef.body, canon.noreturn):
                                 new = None  # falling off the end would bind None: keep the call
                         if new is not None:
